@@ -318,11 +318,32 @@ pub fn gen_c11(rng: &mut Rng, thorough: bool) -> History {
         early_clip_pop: false,
         layer_blend: BlendProfile::Common,
     };
-    // start with a transform so that most draws happen under a non-identity CTM
     let (w, h) = em.dims(0);
+    // the integer-translation image shaders are an internal fast path: deny it in the primary
+    // execution on a quarter of the runs (the twin keeps it), so that a wrong decision to take
+    // it is seen as well
+    let buggify = if rng.chance(1, 4) { 2 } else { 0 };
+    if rng.chance(1, 8) {
+        // "line width scales with T": geometry given in device pixels, drawn through a uniform
+        // scale by a (large or small) power of two with all user-space lengths divided by it
+        let k = if rng.chance(1, 2) { rng.range(3, 13) } else { -rng.range(3, 12) };
+        let s = (2.0f32).powi(k);
+        em.push(0, Op::SetTransform(mk::unmat(&raqote::Transform::scale(s, s))));
+        let mut dcfg = cfg.draw.clone();
+        dcfg.kinds = [4, 2, 6, 0, 0, 0, 0];
+        dcfg.sources = SRC_SOLID;
+        let n = 1 + rng.usize(5);
+        for _ in 0..n {
+            let mut op = gen_draw(rng, w, h, &dcfg);
+            scale_geometry(&mut op, 1. / s);
+            em.push(0, op);
+        }
+        return em.finish(buggify, 0, 2_000_000_000, format!("c11 power-of-two scale 2^{}", k));
+    }
+    // start with a transform so that most draws happen under a non-identity CTM
     em.push(0, Op::SetTransform(gen_transform(rng, w, h, false)));
     gen_scene(rng, &mut em, 0, &cfg);
-    em.finish(0, 0, 2_000_000_000, "c11".to_string())
+    em.finish(buggify, 0, 2_000_000_000, "c11".to_string())
 }
 
 fn has_curves(p: &PathSpec) -> bool {
@@ -443,11 +464,31 @@ pub fn run_c11(h: &History, st: &mut Stats) -> Outcome {
         }
         let ctm = p.shadows[si].ctm;
         let before = p.surfs[si].pixels().to_vec();
-        if let Err(pi) = exec(&mut p, step, budget, st) {
+        raqote::verif::set_buggify(h.buggify);
+        let r = exec(&mut p, step, budget, st);
+        raqote::verif::set_buggify(0);
+        if let Err(pi) = r {
             st.abort(&panic_class(&pi));
             return Outcome::Aborted(panic_desc(&pi));
         }
         let w = p.surfs[si].w();
+        // "line width scales with T": under a uniform scale s the stroke of P with width w is the
+        // stroke of s.P with width s.w (dashes likewise) under the identity
+        if let Op::Stroke { path, style, opts, .. } = &step.op {
+            let t = mk::mat(&ctm);
+            if t.m11 == t.m22 && t.m11 > 0. && t.m11 != 1. && t.m12 == 0. && t.m21 == 0. {
+                match mk::guarded(budget, || stroke_similarity(path, style, opts, &ctm, w, p.surfs[si].h())) {
+                    Ok(Ok(())) => st.count("c11.stroke_similarity_checked"),
+                    Ok(Err(d)) => {
+                        return viol("c11.stroke-width-does-not-scale", i, format!("stroke under the uniform scale {} differs from the stroke of the scaled path with the scaled style under the identity: {}", t.m11, d));
+                    }
+                    Err(pi) => {
+                        st.abort(&panic_class(&pi));
+                        return Outcome::Aborted(format!("similarity reference: {}", panic_desc(&pi)));
+                    }
+                }
+            }
+        }
         if let Err(v) = check_shadow(&p, si, "c11", i) {
             return Outcome::Violation(v);
         }
@@ -517,6 +558,69 @@ pub fn run_c11(h: &History, st: &mut Stats) -> Outcome {
     Outcome::Ok
 }
 
+/// `got` against `reference` (alpha of white-on-transparent renders) with a margin of M pixels:
+/// pixels deep inside the reference region must be covered, pixels deep outside must not be
+fn compare_regions(got: &[u32], reference: &[u32], w: i32, h: i32) -> Result<(), String> {
+    const M: i32 = 2;
+    for y in 0..h {
+        for x in 0..w {
+            let mut lo = 255u32;
+            let mut hi = 0u32;
+            for dy in -M..=M {
+                for dx in -M..=M {
+                    let (xx, yy) = (x + dx, y + dy);
+                    if xx < 0 || yy < 0 || xx >= w || yy >= h {
+                        // beyond the surface nothing is known
+                        lo = 0;
+                        hi = 255;
+                    } else {
+                        let v = reference[(yy * w + xx) as usize] >> 24;
+                        lo = lo.min(v);
+                        hi = hi.max(v);
+                    }
+                }
+            }
+            let g = got[(y * w + x) as usize] >> 24;
+            if lo == 255 && g < 128 {
+                return Err(format!("pixel ({},{}) lies more than {} px inside the region but has coverage {}", x, y, M, g));
+            }
+            if hi == 0 && g > 127 {
+                return Err(format!("pixel ({},{}) lies more than {} px outside the region but has coverage {}", x, y, M, g));
+            }
+        }
+    }
+    Ok(())
+}
+
+fn stroke_similarity(path: &PathSpec, style: &StrokeSpec, opts: &Opts, ctm: &Mat, w: i32, h: i32) -> Result<(), String> {
+    use raqote::*;
+    if w <= 0 || h <= 0 {
+        return Ok(());
+    }
+    let t = mk::mat(ctm);
+    let s = t.m11;
+    let white = Source::Solid(SolidSource { r: 255, g: 255, b: 255, a: 255 });
+    let o = DrawOptions { blend_mode: BlendMode::SrcOver, alpha: 1., antialias: if opts.aa { AntialiasMode::Gray } else { AntialiasMode::None } };
+    let mut a = DrawTarget::new(w, h);
+    a.set_transform(&t);
+    a.stroke(&mk::build_path(path), &white, &mk::build_style(style), &o);
+    let mut scaled = path.clone();
+    scaled.xf = Some(*ctm);
+    let mut st2 = style.clone();
+    st2.width.0 *= s;
+    st2.dash_offset.0 *= s;
+    for d in st2.dash_array.iter_mut() {
+        d.0 *= s;
+    }
+    let mut b = DrawTarget::new(w, h);
+    b.stroke(&mk::build_path(&scaled), &white, &mk::build_style(&st2), &o);
+    // miter spikes depend on the flattening of curves, see curved_stroke_geometry
+    if style.join % 3 == 1 && has_curves(path) && style.miter_limit.0 * st2.width.0 * 0.5 > 1.5 {
+        return Ok(());
+    }
+    compare_regions(a.get_data(), b.get_data(), w, h)
+}
+
 /// Ok(true): checked and fine, Ok(false): transform too anisotropic for the margin, Err: mismatch
 fn curved_stroke_geometry(path: &PathSpec, style: &StrokeSpec, opts: &Opts, ctm: &Mat, w: i32, h: i32) -> Result<bool, String> {
     use raqote::*;
@@ -546,38 +650,7 @@ fn curved_stroke_geometry(path: &PathSpec, style: &StrokeSpec, opts: &Opts, ctm:
     r.xf = Some(*ctm);
     let mut b = DrawTarget::new(w, h);
     b.fill(&mk::build_path(&r), &white, &o);
-    let (pa, pb) = (a.get_data(), b.get_data());
-    const M: i32 = 2;
-    for y in 0..h {
-        for x in 0..w {
-            let mut lo = 255u32;
-            let mut hi = 0u32;
-            for dy in -M..=M {
-                for dx in -M..=M {
-                    let (xx, yy) = (x + dx, y + dy);
-                    // beyond the surface nothing is known: treat as "both"
-                    let v = if xx < 0 || yy < 0 || xx >= w || yy >= h { None } else { Some(pb[(yy * w + xx) as usize] >> 24) };
-                    match v {
-                        Some(v) => {
-                            lo = lo.min(v);
-                            hi = hi.max(v);
-                        }
-                        None => {
-                            lo = 0;
-                            hi = 255;
-                        }
-                    }
-                }
-            }
-            let got = pa[(y * w + x) as usize] >> 24;
-            if lo == 255 && got < 128 {
-                return Err(format!("pixel ({},{}) lies more than {} px inside the region but has coverage {}", x, y, M, got));
-            }
-            if hi == 0 && got > 127 {
-                return Err(format!("pixel ({},{}) lies more than {} px outside the region but has coverage {}", x, y, M, got));
-            }
-        }
-    }
+    compare_regions(a.get_data(), b.get_data(), w, h)?;
     Ok(true)
 }
 
